@@ -76,7 +76,15 @@ CheckAP(r) ==
       /\ Ck("C08", r, "C08.wellformed", HasImpl(r) => WfUpdateAP(r.impl, TRUE), <<>>)
       /\ Ck("C08", r, "C08.meaning", (HasImpl(r) /\ WfUpdateAP(r.impl, TRUE)) => NormUpdateAP(r.impl) = NormUpdateAP(r.ref), <<>>)
       /\ Ck("C09", r, "C09.decode", r.dec_ok, r.ddiff)
+\* the codec is a function of its input: repeated evaluation (at once, and again after all other vectors) gives the same result
+CheckPure(r) ==
+   r.kind # "comm" =>
+      /\ Ck("C06", r, "C06.pure", r.kind = "upd" => r.pure, r.impure)
+      /\ Ck("C07", r, "C07.pure", r.kind = "mp" => r.pure, r.impure)
+      /\ Ck("C08", r, "C08.pure", r.pure, r.impure)
+      /\ Ck("C09", r, "C09.pure", r.kind \in {"upd", "updvar", "cor", "updap"} => r.pure, r.impure)
+      /\ Ck("C14", r, "C14.pure", r.kind \in SessKinds \cup {"open"} => r.pure, r.impure)
 Init == l = 1
-Next == l <= Len(Tr) /\ (IF Tr[l].kind = "mp" THEN CheckMp(Tr[l]) ELSE IF Tr[l].kind = "enc" THEN CheckEnc(Tr[l]) ELSE IF Tr[l].kind = "comm" THEN CheckComm(Tr[l]) ELSE IF Tr[l].kind = "updap" THEN CheckAP(Tr[l]) ELSE (CheckLine(Tr[l]) /\ CheckSess(Tr[l]))) /\ l' = l + 1
+Next == l <= Len(Tr) /\ CheckPure(Tr[l]) /\ (IF Tr[l].kind = "mp" THEN CheckMp(Tr[l]) ELSE IF Tr[l].kind = "enc" THEN CheckEnc(Tr[l]) ELSE IF Tr[l].kind = "comm" THEN CheckComm(Tr[l]) ELSE IF Tr[l].kind = "updap" THEN CheckAP(Tr[l]) ELSE (CheckLine(Tr[l]) /\ CheckSess(Tr[l]))) /\ l' = l + 1
 AllConsumed == TLCGet("stats").diameter - 1 = Len(Tr)
 =============================================================================
